@@ -606,7 +606,7 @@ def run(ctx):
     def tally(hexe, margs, key):
         # result kinds of the hostile stream (error kinds hit), from the model side (cheap, no fork)
         lines = []
-        for c in cases[:4000]:
+        for c in (cases[:4000] if ctx.quick else cases):
             lines += c
         mo, _, _ = ctx.run_lines(drv, lines, margs)
         for l, o in zip(lines, mo):
